@@ -7,21 +7,23 @@ import (
 	"os"
 	"os/exec"
 	"path/filepath"
+	"runtime"
 	"strings"
 	"sync"
 	"sync/atomic"
+	"syscall"
 	"time"
 )
 
 type SolveResult struct {
-	Status  string // unsat sat unknown timeout error
-	Solver  string
-	Time    float64
-	Output  string
-	Tried   []string
-	Script  string // path if kept
-	Model   string
-	Agreed  []string // solvers that answered unsat (thorough)
+	Status string // unsat sat unknown timeout error
+	Solver string
+	Time   float64
+	Output string
+	Tried  []string
+	Script string // path if kept
+	Model  string
+	Agreed []string // solvers that answered unsat (thorough)
 }
 
 type solverSpec struct {
@@ -101,9 +103,80 @@ func runSolver(ctx context.Context, sp solverSpec, script string, timeoutS int, 
 	return
 }
 
+// ---- machine-wide slot pool ----
+// Several checks may run at the same time (one process per property). Each solver race takes one slot of a pool shared
+// through lock files, so the number of concurrently running races stays bounded by the number of cores whatever the
+// number of qv processes; without it solver timeouts under load would be reported as failed obligations.
+
+var slotFiles []*os.File
+
+func initSlots() {
+	dir := os.Getenv("QV_WORK")
+	if dir == "" {
+		dir = "/verif/.work"
+	}
+	dir = filepath.Join(dir, "slots")
+	os.MkdirAll(dir, 0o755)
+	n := runtime.NumCPU() * 3 / 4
+	if n < 2 {
+		n = 2
+	}
+	for i := 0; i < n; i++ {
+		f, err := os.OpenFile(filepath.Join(dir, fmt.Sprintf("slot-%d.lock", i)), os.O_CREATE|os.O_RDWR, 0o644)
+		if err == nil {
+			slotFiles = append(slotFiles, f)
+		}
+	}
+}
+
+var slotOnce sync.Once
+var slotInUse = map[int]bool{}
+var slotMu sync.Mutex
+
+func acquireSlot() int {
+	slotOnce.Do(initSlots)
+	if len(slotFiles) == 0 {
+		return -1
+	}
+	start := int(atomic.AddInt64(&queryCounter, 0)) % len(slotFiles)
+	for {
+		for k := 0; k < len(slotFiles); k++ {
+			i := (start + k) % len(slotFiles)
+			slotMu.Lock()
+			busy := slotInUse[i] // flock is per open file description: guard against reuse inside this process
+			if !busy {
+				slotInUse[i] = true
+			}
+			slotMu.Unlock()
+			if busy {
+				continue
+			}
+			if err := syscall.Flock(int(slotFiles[i].Fd()), syscall.LOCK_EX|syscall.LOCK_NB); err == nil {
+				return i
+			}
+			slotMu.Lock()
+			slotInUse[i] = false
+			slotMu.Unlock()
+		}
+		time.Sleep(3 * time.Millisecond)
+	}
+}
+
+func releaseSlot(i int) {
+	if i < 0 {
+		return
+	}
+	syscall.Flock(int(slotFiles[i].Fd()), syscall.LOCK_UN)
+	slotMu.Lock()
+	slotInUse[i] = false
+	slotMu.Unlock()
+}
+
 // solve races the installed solvers on one obligation. need = number of solvers
 // that must answer unsat before the others are cancelled.
 func solve(name, script string, timeoutS int, need int) *SolveResult {
+	slot := acquireSlot()
+	defer releaseSlot(slot)
 	res := &SolveResult{}
 	// unique file per query: names that differ only in punctuation must never share a file
 	sn := sanitize(name)
@@ -112,10 +185,10 @@ func solve(name, script string, timeoutS int, need int) *SolveResult {
 	}
 	base := filepath.Join(workDir, fmt.Sprintf("%s.%08x.%d", sn, hashString(name), atomic.AddInt64(&queryCounter, 1)))
 	type ans struct {
-		sp     solverSpec
-		st     string
-		out    string
-		secs   float64
+		sp   solverSpec
+		st   string
+		out  string
+		secs float64
 	}
 	ctx, cancel := context.WithCancel(context.Background())
 	defer cancel()
